@@ -3,6 +3,7 @@ package harness
 import (
 	"errors"
 	"fmt"
+	"strings"
 	"runtime/debug"
 	"sync"
 
@@ -231,7 +232,7 @@ func (p *ProxyStore) Write(f func(diskstore.BucketManager) error) (err error) {
 				gofail.Disable(fpName)
 			}
 			if r := recover(); r != nil {
-				if s, ok := r.(string); ok && s == failpointPanic {
+				if s, ok := r.(string); ok && strings.Contains(s, failpointPanic) {
 					w.kill(armed.Kind) // frozen for ever
 				}
 				panic(r)
